@@ -121,6 +121,9 @@ def observe_frame(f: dict, ctors: tuple[str, ...], rssi: str = "045") -> list[di
             rows.append(_observe(c, text, lambda: Command._from_attrs(
                 f["verb"], f["code"], f["payload"], addr0=f["a0"], addr1=f["a1"], addr2=f["a2"],
                 seqn=None if f["seqn"] == "---" else (int(f["seqn"]) if f["seqn"].isdigit() and int(f["seqn"]) % 2 else f["seqn"]))))
+        elif c == "attrs_int" and f["seqn"].isdigit():   # the sequence number as the integer it is (0 included)
+            rows.append(_observe(c, text, lambda: Command._from_attrs(
+                f["verb"], f["code"], f["payload"], addr0=f["a0"], addr1=f["a1"], addr2=f["a2"], seqn=int(f["seqn"]))))
         elif c == "pkt_port":
             rows.append(_observe(c, text, lambda: Packet.from_port(_DTM, f"{rssi} {text}")))
         elif c == "pkt_file":
@@ -169,7 +172,7 @@ def frame_rows(frames_abs: list[dict], tier: str, seed: int) -> tuple[list[dict]
     n0 = len(rows)
     for s in range(256):                                # all sequence numbers
         f = dict(base, seqn=f"{s:03d}", verb=(" I", "RQ", "RP", " W")[s % 4], len="003", payload=pay(3))
-        rows += observe_frame(f, ("cmd", "attrs", "pkt_port", "cli"))
+        rows += observe_frame(f, ("cmd", "attrs", "attrs_int", "pkt_port", "cli"))
     stats["systematic"]["seqn_000_255"] = len(rows) - n0
     n0 = len(rows)
     pairs = [(a, b) for a in range(64) for b in range(64)] if tier == "thorough" else [(a, (a * 11 + 5) % 64) for a in range(64)] + [(a, a) for a in range(64)]
